@@ -5,7 +5,7 @@
     [spec_ok]: the property's clauses ([Maintain.Spec]) evaluated on the implementation's
     observations only. *)
 From Coq Require Import List Arith Bool ZArith.
-From CM Require Import Lib.Wire Maintain.Model Maintain.Spec.
+From CM Require Import Lib.Wire Maintain.Model Maintain.Spec Maintain.XModel.
 Import ListNotations.
 Open Scope Z_scope.
 
@@ -25,11 +25,21 @@ Definition get_event : dec event :=
   | _ => fun _ => None
   end.
 
+Definition get_xevent : dec xevent :=
+  t <- get_nat ;;
+  match t with
+  | 0%nat => e <- get_event ;; ret (Core e)
+  | 1%nat => i <- get_nat ;; ret (Revoke i)
+  | 2%nat => o <- get_list get_nat ;; ret (OcspPass o)
+  | _ => fun _ => None
+  end.
+
 Definition get_obs : dec obs :=
   c <- get_list get_cert ;; st <- get_list (get_opt get_cert) ;; ix <- get_list (get_list get_nat) ;;
   sv <- get_list (get_opt get_nat) ;;
   i <- get_list get_nat ;; f <- get_list get_nat ;; j <- get_list get_nat ;; e <- get_bool ;;
   ret (Obs c st ix sv i f j e).
+Definition get_xobs : dec xobs := o <- get_obs ;; r <- get_list get_nat ;; ret (XObs o r).
 
 Record case := Case {
   c_k : nat;
@@ -38,44 +48,52 @@ Record case := Case {
   c_store : list (name * cert);
   c_cache : list cert;
   c_next : nat;
-  c_obs0 : obs;
-  c_hist : list (event * obs);
-  c_final : obs     (* after the context was cancelled and all jobs / passes ran to their end *)
+  c_obs0 : xobs;
+  c_hist : list (xevent * xobs);
+  c_final : xobs     (* after the context was cancelled and all jobs / passes ran to their end *)
 }.
 
 Definition get_case : dec case :=
   k <- get_nat ;; o <- get_list get_bool ;; d <- get_bool ;;
   st <- get_list (get_pair get_nat get_cert) ;; ca <- get_list get_cert ;; nx <- get_nat ;;
-  o0 <- get_obs ;; h <- get_list (get_pair get_event get_obs) ;; fin <- get_obs ;;
+  o0 <- get_xobs ;; h <- get_list (get_pair get_xevent get_xobs) ;; fin <- get_xobs ;;
   ret (Case k o d st ca nx o0 h fin).
 
 Definition od_of (c : case) (n : name) : bool := nth n (c_od c) false.
 Definition init_of (c : case) : state := State (c_store c) (c_cache c) [] [] [] [] [] (c_next c) false.
+Definition xinit_of (c : case) : xstate := XState (init_of c) [].
 
 (** model replay: index of the first event after which model and implementation differ
     (0 = the initial observation, i+1 = event i), or None *)
-Fixpoint replay (od : name -> bool) (idue : bool) (k : nat) (s : state) (i : nat) (h : list (event * obs))
-  : option (nat * obs) :=
+Fixpoint replay (od : name -> bool) (idue : bool) (k : nat) (s : xstate) (i : nat) (h : list (xevent * xobs))
+  : option (nat * xobs) :=
   match h with
   | [] => None
   | (e, o) :: r =>
-      let s' := step od idue s e in
-      if obs_eqb (observe k s') o then replay od idue k s' (S i) r else Some (i, observe k s')
+      let s' := xstep od idue s e in
+      if xobs_eqb (xobserve k s') o then replay od idue k s' (S i) r else Some (i, xobserve k s')
   end.
 
-Definition first_diff (c : case) : option (nat * obs) :=
-  let s0 := init_of c in
-  if obs_eqb (observe (c_k c) s0) (c_obs0 c) then replay (od_of c) (c_idue c) (c_k c) s0 1 (c_hist c)
-  else Some (0%nat, observe (c_k c) s0).
+Definition first_diff (c : case) : option (nat * xobs) :=
+  let s0 := xinit_of c in
+  if xobs_eqb (xobserve (c_k c) s0) (c_obs0 c) then replay (od_of c) (c_idue c) (c_k c) s0 1 (c_hist c)
+  else Some (0%nat, xobserve (c_k c) s0).
+
+(** the theorems about OCSP passes are for an issuer that hands out certificates that are not
+    already due; the generator respects that, and a case that does not is not accepted *)
+Definition is_ocsp (e : xevent) : bool := match e with OcspPass _ => true | _ => false end.
+Definition case_ok (c : case) : bool :=
+  negb (c_idue c) || negb (existsb (fun p => is_ocsp (fst p)) (c_hist c)).
 
 Definition model_agrees (c : case) : bool :=
-  wf_b (od_of c) (c_k c) (init_of c) && match first_diff c with None => true | Some _ => false end.
+  wf_b (od_of c) (c_k c) (init_of c) && case_ok c &&
+  match first_diff c with None => true | Some _ => false end.
 
-Definition last_obs (c : case) : obs := last (map snd (c_hist c)) (c_obs0 c).
+Definition last_obs (c : case) : xobs := last (map snd (c_hist c)) (c_obs0 c).
 
 Definition spec_ok (c : case) : bool :=
-  spec_run (od_of c) (c_idue c) (c_k c) [] (c_obs0 c) (c_hist c) &&
-  spec_final (od_of c) (c_k c) (last_obs c) (c_final c).
+  xspec_run (od_of c) (c_idue c) (c_k c) [] (c_obs0 c) (c_hist c) &&
+  spec_final (od_of c) (c_k c) (xo (last_obs c)) (xo (c_final c)).
 
 Definition check_line (l : list Z) : Z :=
   match decode get_case l with
@@ -84,17 +102,18 @@ Definition check_line (l : list Z) : Z :=
   end.
 
 (** diagnostics: [wf; index of first difference or -1; the model's observation there (cache ids,
-    stored ids, job codes, issued, failed, err); index of the first event whose spec clause fails
-    or -1; the failing clause number] *)
+    stored ids, job codes, issued, failed, err, revoked ids); index of the first event whose spec
+    clause fails or -1; the failing clause number (0-9 core events, 10-19 OCSP pass, 20 revoke)] *)
 Definition zn (n : nat) : Z := Z.of_nat n.
 Definition put_list {A} (f : A -> list Z) (l : list A) : list Z := zn (length l) :: flat_map f l.
-Definition put_obs (o : obs) : list Z :=
+Definition put_obs (x : xobs) : list Z :=
+  let o := xo x in
   put_list (fun c => [zn (cid c)]) (o_cache o) ++
   put_list (fun x => match x with Some c => [zn (cid c)] | None => [-1] end) (o_store o) ++
   put_list (fun x => [zn x]) (o_jobs o) ++
   put_list (fun x => [zn x]) (o_issued o) ++
   put_list (fun x => [zn x]) (o_failed o) ++
-  [if o_err o then 1 else 0].
+  [if o_err o then 1 else 0] ++ put_list (fun x => [zn x]) (xo_rev x).
 Definition explain_line (l : list Z) : list Z :=
   match decode get_case l with
   | Some c =>
@@ -103,10 +122,10 @@ Definition explain_line (l : list Z) : list Z :=
        | None => [-1]
        | Some (i, o) => zn i :: put_obs o
        end) ++
-      (match spec_first_fail (od_of c) (c_idue c) (c_k c) [] (c_obs0 c) (c_hist c) 0 with
+      (match xspec_first_fail (od_of c) (c_idue c) (c_k c) [] (c_obs0 c) (c_hist c) 0 with
        | None => [-1]
        | Some (i, cl) => [zn i; zn cl]
        end) ++
-      [if spec_final (od_of c) (c_k c) (last_obs c) (c_final c) then 1 else 0]
+      [if spec_final (od_of c) (c_k c) (xo (last_obs c)) (xo (c_final c)) then 1 else 0]
   | None => []
   end.
